@@ -434,13 +434,16 @@ func (p *Planner) plan(ctx context.Context, name string, to StateReader, realmSc
 		case m > 1:
 			return nil, fmt.Errorf("%d schemas were found in desired state; expect 1", len(desired.Schemas))
 		default:
-			s1, s2 := *current.Schemas[0], *desired.Schemas[0]
+			s1, s2 := current.Schemas[0], desired.Schemas[0]
 			// Avoid comparing schema names when scope is limited to one schema,
-			// and the schema qualifier is controlled by the caller.
+			// and the schema qualifier is controlled by the caller. The replayed
+			// schema itself is renamed (not a shallow copy of it): its tables and
+			// types point to it, and changes built from them (DropTable, reverse
+			// statements) must not carry the name of the dev database's schema.
 			if s1.Name != s2.Name {
 				s1.Name = s2.Name
 			}
-			changes, err = p.drv.SchemaDiff(&s1, &s2, p.diffOpts...)
+			changes, err = p.drv.SchemaDiff(s1, s2, p.diffOpts...)
 		}
 	}
 	if err != nil {
